@@ -227,7 +227,7 @@ class FakeCursor:
         return len(args_array)
 
     async def fetchone(self):
-        return None
+        return {'rc': 0}
 
     async def fetchmany(self, n):
         return []
@@ -298,7 +298,9 @@ class FakePool:
 
 # ---- scenarios -----------------------------------------------------------------------------------------
 RETURN = ('result',)
-ENTRIES = ('transaction', 'execute_update', 'execute_many')
+SINGLE = ('execute_update', 'just_execute', 'execute_and_fetchone', 'select_and_fetchone', 'execute_insertone',
+          'check_call_procedure')       # Database methods that run one statement in their own transaction
+ENTRIES = ('transaction', 'execute_many') + SINGLE
 
 
 def n_ops(entry, nstmt):
@@ -335,10 +337,10 @@ async def _scenario(entry, nstmt, read_only, faults, initial):
     try:
         if entry == 'transaction':
             value = await (WORK_RO if read_only else WORK)(writes)
-        elif entry == 'execute_update':
-            value = await DB.execute_update('INSERT', writes[0])
-        else:
+        elif entry == 'execute_many':
             value = await DB.execute_many('INSERT', writes)
+        else:
+            value = await getattr(DB, entry)('INSERT', writes[0])
     except Exception as e:
         outcome, value = 'raised', e
     # let the background connection-release tasks run
@@ -369,7 +371,8 @@ def check(entry, nstmt, read_only, faults, initial=(('old', 0),)):
     finally:
         loop.close()
     ops = n_ops(entry, nstmt)
-    read_only = read_only and entry == 'transaction'   # only @transaction takes the flag
+    # only @transaction takes the flag; select_and_fetchone always starts a read-only transaction
+    read_only = (read_only and entry == 'transaction') or entry == 'select_and_fetchone'
     # expected course, from the plan and the property text only
     exp_retries = 0
     exp_raise = None          # index of the fault that must be raised
@@ -387,7 +390,7 @@ def check(entry, nstmt, read_only, faults, initial=(('old', 0),)):
             return f'expected success after {exp_retries} retried attempts, got {type(value).__name__}: {value}'
         if entry == 'transaction' and value is not RETURN:
             return f'wrong return value {value!r}'
-        want = list(initial) + [('INSERT', w) for w in (writes if entry != 'execute_update' else writes[:1])]
+        want = list(initial) + [('INSERT', w) for w in (writes[:1] if entry in SINGLE else writes)]
         if srv.committed != want:
             return f'after success the committed store is {srv.committed}, expected exactly one application {want}'
     else:
